@@ -1,6 +1,7 @@
 """C20 - legacy {...} patterns render, read back and increase consistently."""
 from campaigns.testcmd import TestCmd
 from campaigns.life import Life
+from campaigns.sweep import LegacySweep
 
 PROPERTY = "C20"
 LEVEL = "exploration"
@@ -10,13 +11,17 @@ RULE = ("TESTCMD chains and LIFE histories with the legacy brace patterns ({pyca
         "announced version: accepted in full by the reference legacy recogniser, reads back with the same parts, re-renders "
         "identically, strictly greater (for {pycalver} also as a plain string); `test` and `update --dry` in a project "
         "configured with the same (version, pattern) must agree (engine dispatch); LIFE rewrites slots incl. "
-        "{pep440_version}. distinct_nontrivial = distinct (pattern parts, flags, set-version kind, clock relation, outcome).")
+        "{pep440_version}. LEGACYSWEEP: the simulated clock visits every day 2000-01-01..2099-12-31 (quick: the years 2000, "
+        "2004, 2096, 2099, every New-Year window and seeded years) for the legacy calendar composites; `bumpver test` must "
+        "announce a version that its pattern accepts and that reads back with the same parts. distinct_nontrivial = distinct (pattern parts, flags, set-version kind, clock relation, outcome).")
 ASSUMPTIONS = ["{iso_week}/{us_week}/{dom_short}-only and {doy_short} composites are outside the statement's list",
                "no bump-rule model for legacy patterns (the statement gives laws, not rules)"]
 COMPONENTS = {"bumpver cli test/update/show, v1version/v1patterns/v1rewrite": "real", "clock": "simulated",
               "files": "real scratch directory"}
 CAMPAIGNS = [TestCmd("C20", quick=9000, thorough=300000, sv_rate=0.25, legacy=True),
-             Life("C20", quick=4000, thorough=150000, sv_rate=0.1, family="legacy", vcs="none")]
+             Life("C20", quick=6000, thorough=150000, sv_rate=0.05, family="legacy", vcs="none", force_pep=True, dry_rate=0.05,
+                  nmax=5),
+             LegacySweep()]
 
 
 def sanity_gate(tier, total):
